@@ -4,6 +4,9 @@ mod props;
 mod refs;
 mod util;
 
+#[global_allocator]
+static GLOBAL: util::alloc_guard::CountingAlloc = util::alloc_guard::CountingAlloc;
+
 use std::path::PathBuf;
 
 use engine::{Ctx, ReplayFile, Tier};
@@ -22,7 +25,7 @@ fn props() -> Vec<PropDef> {
             PropDef { id: $id, level: $lvl, rule: props::$m::RULE, assumptions: props::$m::ASSUMPTIONS, run: props::$m::run }
         };
     }
-    vec![p!("C04", c04, "exploration"), p!("C06", c06, "exploration")]
+    vec![p!("C04", c04, "exploration"), p!("C06", c06, "exploration"), p!("C07", c07, "exploration"), p!("C08", c08, "exploration")]
 }
 
 fn usage() -> ! {
@@ -92,7 +95,7 @@ fn main() {
             eprintln!("cannot parse replay {}: {e}", p.display());
             std::process::exit(2)
         });
-        if !rf.env.is_empty() && std::env::var_os("XV_REPLAY_CHILD").is_none() {
+        if std::env::var_os("XV_REPLAY_CHILD").is_none() {
             let mut cmd = std::process::Command::new(std::env::current_exe().unwrap());
             cmd.args(&args[1..]).env("XV_REPLAY_CHILD", "1");
             for (k, _) in std::env::vars() {
@@ -104,7 +107,15 @@ fn main() {
                 cmd.env(k, v);
             }
             let st = cmd.status().expect("re-exec");
-            std::process::exit(st.code().unwrap_or(2));
+            match st.code() {
+                Some(c) if c == 0 || c == 1 || c == 2 => std::process::exit(c),
+                other => {
+                    // the code under test killed the process (abort, allocation cap, stack overflow …)
+                    println!("VIOLATION property={} replay={}", id, p.display());
+                    println!("  the replayed case killed the process ({:?} / {:?})", other, st);
+                    std::process::exit(1);
+                },
+            }
         }
         let mut ctx = Ctx::new(&id, tier, seed, def.level);
         ctx.replay = Some(rf);
